@@ -52,6 +52,8 @@ func c18(tier string) []*explore.Scenario {
 	}
 	// complete RPC workloads from several logical clients over one shared transport (through the proxy topology)
 	out = append(out, donors("C18", []*explore.Scenario{c16RPC("2unary", true, bound), c16RPC("unary+stream", true, bound)})...)
+	// finer granularity (a scheduling point after every Unlock as well) on the small core scenarios
+	out = append(out, fineGrained(c18Delivery(2, 2, 1, false), c18DoubleCancel(3, 1))...)
 	return out
 }
 
